@@ -611,7 +611,18 @@ func vfCorpusC09() []*vfWorldCase {
 			vfAction{Kind: "tamper", Browser: 0, Tamper: "swap", Name: n1, Name2: n2}, vfGated(0, 0, "/app", 1))
 		return &vfWorldCase{Kind: "corpus", Script: vfScript{Cfg: vfWorldCfg{EndSession: true, GraceSec: 60}, Browsers: 1, Actions: acts}}
 	}
-	return append(vfCorpusC07(), swap("a", "r"), swap("m", "a"), swap("r", "m"))
+	// a whole session minted under ANOTHER key (short keys; long keys that differ only near their end), and such
+	// cookies mixed into a genuine session: never session content
+	other := func(long bool) *vfWorldCase {
+		tk := vfPlainTok("mallory@example.com", 3600)
+		acts := []vfAction{{Kind: "mint", Browser: 0, Mint: &vfMintSpec{Auth: true, Email: "mallory@example.com", Tok: tk, RefreshLen: 24, KeyB: true}},
+			vfGated(0, 0, "/app", 1), vfGated(0, 0, "/app/2", 1)}
+		acts = append(acts, vfLogin(1, 0, "/b", sc)...)
+		acts = append(acts, vfGated(1, 0, "/b", 1), vfAction{Kind: "tamper", Browser: 1, Tamper: "copy", Name: "a", From: 0}, vfGated(1, 0, "/b", 1),
+			vfAction{Kind: "tamper", Browser: 1, Tamper: "copy", Name: "m", From: 0}, vfGated(1, 0, "/b", 1))
+		return &vfWorldCase{Kind: "corpus", Script: vfScript{Cfg: vfWorldCfg{EndSession: true, GraceSec: 60, LongKeys: long}, Browsers: 2, Actions: acts}}
+	}
+	return append(vfCorpusC07(), swap("a", "r"), swap("m", "a"), swap("r", "m"), other(false), other(true))
 }
 
 // ---------------------------------------------------------------- C10: identity headers
